@@ -120,6 +120,21 @@ class SymInt(_Sym):
 
 @_num_ops
 class SymFloat(_Sym):
+    imag = 0   # numpy.isreal(x) reads x.imag
+
+    @property
+    def real(self):
+        return self
+
+    def __round__(self, ndigits=None):
+        """Python's round(): to the nearest integer, ties to even"""
+        if ndigits is not None:
+            raise TypeError("SymFloat.__round__ with ndigits is not modelled")
+        x = S.to_real_expr(self.c)
+        f = z3.ToInt(x + z3.RealVal("1/2"))
+        tie = z3.ToReal(f) == x + z3.RealVal("1/2")
+        return wrap(z3.If(z3.And(tie, f % 2 != 0), f - 1, f))
+
     def __float__(self):
         return float(E.ENGINE.decide_real(self.c))
 
